@@ -1,9 +1,9 @@
 //! C04 Pruning is authenticated and scoped to the prune operation's own log.
 //!
-//! E-DFS over short sequences of attacker/honest inputs fed to the node's *real* processing
-//! pipeline (hook `p2panda::processor::verif`: `Pipeline`, `TaskTracker`, `new_event`; events are
-//! built exactly as `streams::stream` builds them: log id from the stream's topic, prune flag from
-//! the header).  The store is a real `SqliteStore`.  After every input the set of stored
+//! E-DFS over short sequences of attacker/honest inputs fed to the node's *real* stream entry point
+//! `streams::stream::process_operation` (the function every operation from a sync session, an
+//! import or a replay goes through; hook `p2panda::streams::verif::process_operation`) in front of
+//! the real processing `Pipeline` (ingest + log prune, own thread).  The store is a real `SqliteStore`.  After every input the set of stored
 //! (author, log, seq) entries may change only by the insertion of that (accepted) operation and by
 //! the deletion of the strictly smaller entries of its own (author, log) if it is an accepted
 //! prune-flagged operation; a failed input changes nothing.
@@ -11,7 +11,10 @@ use std::collections::BTreeSet;
 
 use explorer::{dfs, json, Chooser, DfsCfg, Report};
 use p2panda::operation::{Extensions, LogId, Operation};
-use p2panda::processor::verif::{new_event, Pipeline, TaskTracker};
+use p2panda::node::AckPolicy;
+use p2panda::processor::verif::{Pipeline, TaskTracker};
+use p2panda::streams::verif::{process_operation, Acked};
+use p2panda::streams::{Source, StreamEvent};
 use p2panda_core::{Body, Hash, SigningKey, Topic, VerifyingKey};
 use p2panda_store::logs::LogStore;
 use p2panda_store::SqliteStore;
@@ -139,8 +142,22 @@ struct StepObs {
     after: BTreeSet<Entry>,
     author: String,
     topic_tag: u8,
+    own_log_tag: u8,
     seq: u32,
     prune: bool,
+}
+
+/// Feed one operation the way a sync session / import / replay feeds it: through the stream's
+/// `process_operation` (system-level processing in the real Pipeline, ack, decoding).
+async fn feed(pipeline: &Pipeline<LogId, Extensions, Topic>, store: &SqliteStore, i: &Input) -> Result<bool, String> {
+    let acked = Acked::new(store.clone(), i.topic);
+    let r = tokio::time::timeout(
+        std::time::Duration::from_secs(30),
+        process_operation::<Vec<u8>>(i.op.clone(), i.topic, pipeline, AckPolicy::Explicit, &acked, Source::ExternalStream { session_id: 1 }),
+    )
+    .await
+    .map_err(|_| format!("pipeline did not answer for input {}", i.name))?;
+    Ok(matches!(r, Some(StreamEvent::ProcessingFailed { .. })))
 }
 
 fn execute(ch: &Chooser, w: &World, depth: usize, rt: &tokio::runtime::Runtime) -> Result<Vec<StepObs>, String> {
@@ -148,9 +165,8 @@ fn execute(ch: &Chooser, w: &World, depth: usize, rt: &tokio::runtime::Runtime) 
         let store = SqliteStore::temporary().await;
         let pipeline = Pipeline::<LogId, Extensions, Topic>::new(store.clone(), TaskTracker::new());
         for i in &w.setup {
-            let ev = pipeline.process(new_event(i.op.clone(), LogId::from_topic(i.topic), i.topic, i.op.header.extensions.prune_flag())).await;
-            if ev.is_failed() {
-                return Err(format!("setup operation {} failed: {:?}", i.name, ev.failure_reason()));
+            if feed(&pipeline, &store, i).await? {
+                return Err(format!("setup operation {} failed", i.name));
             }
         }
         let mut out = vec![];
@@ -158,16 +174,13 @@ fn execute(ch: &Chooser, w: &World, depth: usize, rt: &tokio::runtime::Runtime) 
         for _ in 0..len {
             let i = &w.menu[ch.choose_free(w.menu.len(), "input")];
             let before = snapshot(&store, &w.authors, &w.topics).await;
-            let ev = tokio::time::timeout(
-                std::time::Duration::from_secs(30),
-                pipeline.process(new_event(i.op.clone(), LogId::from_topic(i.topic), i.topic, i.op.header.extensions.prune_flag())),
-            )
-            .await
-            .map_err(|_| format!("pipeline did not answer for input {}", i.name))?;
+            let failed = feed(&pipeline, &store, i).await?;
             let after = snapshot(&store, &w.authors, &w.topics).await;
             let author = w.authors.iter().find(|(_, k)| *k == i.op.header.verifying_key).map(|(n, _)| n.clone()).unwrap_or("?".into());
             let topic_tag = w.topics.iter().find(|(_, t)| *t == i.topic).map(|(n, _)| *n).unwrap();
-            out.push(StepObs { input: i.name.clone(), failed: ev.is_failed(), before, after, author, topic_tag, seq: i.op.header.seq_num, prune: *i.op.header.extensions.prune_flag() });
+            // the log the operation itself claims to belong to (header extension)
+            let own_log_tag = w.topics.iter().find(|(_, t)| LogId::from_topic(*t) == i.op.header.extensions.log_id()).map(|(n, _)| *n).unwrap_or(0);
+            out.push(StepObs { own_log_tag, input: i.name.clone(), failed, before, after, author, topic_tag, seq: i.op.header.seq_num, prune: *i.op.header.extensions.prune_flag() });
         }
         Ok(out)
     })
@@ -215,27 +228,27 @@ pub fn run(mut rep: Report) -> i32 {
             }
             // accepted (new or duplicate)
             let me: Entry = (s.author.clone(), s.topic_tag, s.seq);
-            let allowed_removed: BTreeSet<Entry> = if s.prune { s.before.iter().filter(|e| e.0 == s.author && e.1 == s.topic_tag && e.2 < s.seq).cloned().collect() } else { BTreeSet::new() };
+            let allowed_removed: BTreeSet<Entry> = if s.prune { s.before.iter().filter(|e| e.0 == s.author && e.1 == s.own_log_tag && e.2 < s.seq).cloned().collect() } else { BTreeSet::new() };
             if s.prune {
                 saw_prune = true;
             }
             for r in &removed {
                 if !allowed_removed.contains(*r) {
                     rep.violation(
-                        "accepted-input-deleted-foreign-entries",
+                        if s.own_log_tag != s.topic_tag { "accepted-input-deleted-foreign-entries/valid-prune-op-replayed-on-another-topics-stream" } else { "accepted-input-deleted-foreign-entries" },
                         format!("inputs {names:?}: step {si} ({}) was accepted and deleted {r:?}, which is not a smaller entry of its own (author, log)", s.input),
                         replay.clone(),
                     );
                 }
             }
-            if s.prune {
+            if s.prune && s.own_log_tag == s.topic_tag {
                 for e in &allowed_removed {
                     if s.after.contains(e) {
                         rep.violation("prune-incomplete", format!("inputs {names:?}: step {si} ({}) accepted but {e:?} (smaller seq of the same log) is still stored", s.input), replay.clone());
                     }
                 }
             }
-            if !s.before.contains(&me) && !s.after.contains(&me) {
+            if s.own_log_tag == s.topic_tag && !s.before.contains(&me) && !s.after.contains(&me) {
                 rep.violation("accepted-but-not-stored", format!("inputs {names:?}: step {si} ({}) was accepted but is not stored afterwards", s.input), replay.clone());
             }
             for a in &added {
